@@ -1,27 +1,35 @@
 # Per-property claims (exec'd by mkmanifest.py).
 claim('C11', 'proof',
-      'Lean 4 theorems on py2lean-generated kernels + kernel correspondence at Q',
+      'Lean 4 theorems on py2lean-generated kernels and on literal models of the composite polygon / polyline / face / polyface routines (folds over the kernels) + kernel and model correspondence at Q',
       'Soundness/completeness theorems for the intersection kernels are proved in Lean for '
       'every input over any ordered field; the kernels are regenerated from the source on '
       'every run and additionally executed at Q against the real functions.',
       'Trusted: Lean kernel, py2lean translator, harness; floating-point rounding and libm '
-      'are outside the model; composite (face/polyface/polygon) intersections are covered '
-      'by correspondence only.',
+      'are outside the model. Composite routines (Polygon2D/Polyline2D with line/ray, '
+      'Polyline3D/Face3D/Polyface3D with plane and ray) are literal hand models: result = the '
+      'kernel hits in edge order (sound, complete, start/orientation invariant up to '
+      'permutation), tied by correspondence; arc-with-plane is covered by the oracle only.',
       'DESIGN.md 4 C11')
 
 claim('C03', 'proof',
-      'Lean 4 invariant + induction over operation lists on the py2lean-generated cache machine; history replay vs fresh objects',
+      'Lean 4 invariant + induction over operation lists on the py2lean-generated Polygon2D cache machine and on literal cache machines of Mesh2D/3D, Polyline2D/3D, Face3D, Polyface3D + model/code correspondence on random histories; history replay vs fresh objects',
       'For Polygon2D the memoising getters and every transform/transfer method are regenerated '
       'from the source into a Lean state machine over all __slots__; Inv (no filled slot is '
       'stale) is proved for fresh objects and preserved by every operation, hence for every '
       'history of every length (read_after_history). The generated machine is tied to the code '
-      'slot-for-slot by the kernel correspondence. For Polyline2D/3D, Mesh2D/3D, Face3D and '
-      'Polyface3D the same statement is decided by exhaustive short + sampled long history '
-      'replay against fresh objects on the real code.',
-      'Trusted: Lean kernel, py2lean, harness. Proved slots: _area, _is_clockwise and the '
-      'clearing of positional slots of Polygon2D; _perimeter/_is_convex/_is_self_intersecting '
-      'and the other six classes are covered by replay only (not proved). Zero-area loops '
-      'are excluded (not valid inputs).',
+      'slot-for-slot by the kernel correspondence. For Mesh2D (all 8 slots, 18 operations), '
+      'reduced Mesh3D, Polyline2D/3D (all slots), Face3D (all slots) and Polyface3D literal '
+      'hand models (state = defining data + every slot as Option with its value) carry the same '
+      'theorems (inv_step for every operation, inv_history by induction, read_after_history; '
+      'e.g. read length, scale k, read length gives |k| x length for every k) and are tied to '
+      'the classes by replaying random histories on model and object and comparing every slot '
+      'after every step. All seven classes are additionally decided by exhaustive short + '
+      'sampled long history replay against fresh objects, factory-built starts included.',
+      'Trusted: Lean kernel, py2lean, harness, model correspondence. Hand models assume, where a '
+      'flag slot is cached, that is_convex / is_self_intersecting are invariant under the rigid '
+      'map (stated as hypotheses), k != 0 for Face3D.scale flags and closedness for the '
+      'Polyface3D volume transfer (both outside the valid inputs; witnesses kept as examples). '
+      'Zero-area loops are excluded.',
       'DESIGN.md 4 C03')
 
 claim('C02', 'proof',
@@ -38,14 +46,23 @@ claim('C02', 'proof',
       'correspondence only.',
       'DESIGN.md 4 C02')
 claim('C12', 'proof',
-      'Lean 4 minimality / on-object / Lipschitz theorems on py2lean-generated closest-point kernels + kernel correspondence at Q',
+      'Lean 4 minimality / on-object / Lipschitz theorems on py2lean-generated closest-point kernels and on literal models of polygon distances, the segment-pair routines and the polylabel search (loop invariant, termination) + kernel and model correspondence',
       'For the generated closest-point kernels of segments, rays, infinite lines (2D/3D), planes, '
       'line-plane pairs and arcs: the result lies on the object, minimises the squared distance '
       'over the whole object (convexity argument, all inputs), is zero exactly for queries on '
       'the object and is non-expansive; distances are 1-Lipschitz under the sqrt laws.',
-      'Trusted: Lean kernel, py2lean, harness. Proper-arc minimality is proved only for full '
-      'circles (needs an acos monotonicity law); polygon/face distances and '
-      'pole_of_inaccessibility are covered by the property oracle only.',
+      'Model/PolyDistance: edge distance = sqrt of the minimum over the whole outline, invariant '
+      'under start vertex and reversal, 1-Lipschitz; distance_to_point is 0 where the crossing '
+      'test says inside; the signed cell distance of polylabel is 1-Lipschitz across the outline '
+      '(parity separation lemma for arbitrary loops), cell.max bounds it on the cell; priority '
+      'queue invariant: when the queue empties the result is within the tolerance of the best '
+      'signed distance over the bounding rectangle, inside whenever a point deeper than the '
+      'tolerance exists; termination with an explicit fuel bound; segment-pair routines: '
+      'symmetric, on both objects, a lower bound for non-crossing pairs.',
+      'Trusted: Lean kernel, py2lean, harness, model correspondence. Proper-arc minimality is '
+      'proved only for full circles (needs an acos monotonicity law). The early return of '
+      'pole_of_inaccessibility (area < largest dimension x tolerance) is excluded from the '
+      'theorems and is an open finding (returns the bounding-box centre).',
       'DESIGN.md 4 C12')
 
 claim('C10', 'proof',
@@ -69,9 +86,12 @@ claim('C17', 'proof',
       'the circle at the stated angle, cc_difference ordering, segment/plane split pieces meet '
       'at the cut and lengths add. The double-precision counter loop is modelled in Lean '
       '(Model/SubdivFloat) and compared with the real count for every n in 1..500. Arc and '
-      'polyline splitting, to_polyline and subdivide(distances) are decided on the real code.',
-      'Trusted: Lean kernel, py2lean, harness; Lean Float = platform IEEE double for the counter '
-      'model; splitting of arcs/polylines is oracle-only.',
+      'polyline splitting: Model/IsectComposite transcribes Polyline3D.split_with_plane and '
+      'LineSegment3D.split_with_plane (pieces = cuts + 1, consecutive pieces meet at the cut, '
+      'gluing gives the original vertex list, lengths add up), tied by correspondence. Arc '
+      'splitting, to_polyline and subdivide(distances) are decided on the real code.',
+      'Trusted: Lean kernel, py2lean, harness, model correspondence; Lean Float = platform IEEE '
+      'double for the counter model; splitting of arcs is oracle-only.',
       'DESIGN.md 4 C17')
 
 claim('C13', 'proof',
@@ -181,7 +201,7 @@ claim('C05', 'proof',
       'corner at vertex 0).',
       'DESIGN.md 4 C05')
 claim('C07', 'proof',
-      'Lean 4 theorems on a literal model of Polyface3D edge bookkeeping (loop invariant, induction over faces) + model/code correspondence; volume sign algebra; oracle on the real code',
+      'Lean 4 theorems on literal models of Polyface3D edge bookkeeping (loop invariant, induction over faces) and of get_outward_faces / _point_on_face / volume (parity form, conditional outwardness, kernel-checked counterexamples) + model/code correspondence; oracle on the real code',
       'Model/EdgeInfo is a literal transcription of Polyface3D.__init__/_compute_edge_info '
       '(first-occurrence lookup, reversed side first). Proved for every face list: edge_types[i]+1 '
       'is the number of uses of edge i, stored edges are exactly the used ones without '
@@ -193,9 +213,12 @@ claim('C07', 'proof',
       'have positive volume. The model is run against the real class on random face lists on '
       'every check.',
       'Trusted: Lean kernel, harness, model correspondence (hand model, not generated). '
-      'Outwardness by ray parity (get_outward_faces), tolerance welding in from_faces and '
-      'overlapping-edge detection are decided by the oracle on the real code only. Open '
-      'findings: get_outward_faces with test rays through shared edges, _point_on_face.',
+      'Outwardness by ray parity: Model/Outward transcribes get_outward_faces; proved: a face is '
+      'flipped iff an odd number of other faces report a hit, and IF the hit test agrees with '
+      'geometric crossing for the test ray and the Jordan-Brouwer parity fact holds (both '
+      'hypotheses) THEN exactly the inward faces are flipped; the unconditional claim is refuted '
+      'in Lean on two rational witnesses on which model and code agree (open finding). '
+      'Tolerance welding and overlapping-edge merging: oracle only.',
       'DESIGN.md 4 C07')
 claim('C08', 'proof',
       'Lean 4 theorems on a literal model of the crossing-number tests built from generated intersection kernels + model/code correspondence; exact winding oracle on the real code',
@@ -209,9 +232,10 @@ claim('C08', 'proof',
       'edge (using the C12 minimality theorems); the decision tables of polygon_relationship and '
       'does_polygon_touch.',
       'Trusted: Lean kernel, py2lean, harness, model correspondence. Not proved: the Jordan '
-      'curve theorem (parity = containment), Face3D/Polyface3D containment, the geometric '
-      'sub-results of polygon_relationship (inputs of the decision model) - decided by the exact '
-      'oracle on the real code.',
+      'curve theorem (parity = containment); the geometric sub-results of polygon_relationship '
+      '(inputs of the decision model). Polyface3D.is_point_inside has a literal model '
+      '(Model/Outward: parity form, invariance under face order and start vertex, tied by '
+      'correspondence); Face3D.is_point_on_face is decided by the exact oracle only.',
       'DESIGN.md 4 C08')
 claim('C09', 'proof',
       'Lean 4 theorems on plane lifting of set operations and on a literal model of the loop-grouping step + model/code correspondence; exact cell-set oracle on the real code',
